@@ -12,8 +12,10 @@ import (
 
 func chunkSize(kind string) int {
 	switch {
-	case strings.HasPrefix(kind, "graph"):
+	case kind == "graphexh":
 		return 1
+	case kind == "graphsamp":
+		return 25
 	case strings.HasPrefix(kind, "small"):
 		return 20000
 	}
@@ -94,7 +96,7 @@ func shapeOf(h *History) uint64 {
 // checkCase runs one case under all monitors.
 func checkCase(prop string, c *Case, trace bool) *CaseResult {
 	switch {
-	case strings.HasPrefix(c.Kind, "hist:"):
+	case strings.HasPrefix(c.Kind, "hist:") || strings.HasPrefix(c.Kind, "small"):
 		w := newWorld(c.H, true, trace)
 		if prop == "C05" {
 			w.mon.checkDepth = true
@@ -145,6 +147,9 @@ func relevant(prop string, st map[string]int) bool {
 		return st["dot.parsed"] > 0
 	case "C20":
 		return st["callback"] > 0
+	}
+	if st["diff.pairs"] > 0 {
+		return st["diff.ops-compared"] > 0
 	}
 	return st["enter"] > 0
 }
